@@ -32,6 +32,7 @@ import shutil
 import stat
 import sys
 import tempfile
+from concurrent.futures import Future as ConcurrentFuture
 from concurrent.futures import ThreadPoolExecutor
 from pathlib import Path
 from typing import Any
@@ -427,9 +428,29 @@ def prepare(env: Any, access: str, name: str) -> tuple[Any, dict[str, Any]]:
     return _tag_template(env, access, name), {}
 
 
+class _InlineExecutor(ThreadPoolExecutor):
+    """Runs each job at once on the calling (event loop) thread.
+
+    The loaders hand their file-system work to `loop.run_in_executor(None, ...)`.  The harness runs in
+    forked worker processes under a SIGALRM watchdog; worker threads there bought nothing for this property
+    and once left a worker waiting for ever on a job, so the jobs are run inline: same functions, same
+    arguments, a real event loop, no threads.  Set LV_C13_THREADS=1 to use a real single-thread pool."""
+
+    def submit(self, fn: Any, /, *args: Any, **kwargs: Any) -> Any:  # type: ignore[override]
+        fut: ConcurrentFuture[Any] = ConcurrentFuture()
+        try:
+            fut.set_result(fn(*args, **kwargs))
+        except Exception as err:  # noqa: BLE001 - delivered through the future, as a pool would
+            fut.set_exception(err)
+        return fut
+
+
+REAL_THREADS = os.environ.get("LV_C13_THREADS") == "1"
+
+
 class _CaseLoop:
     """A fresh event loop per case (FileSystemLoader/PackageLoader use run_in_executor, so a real loop
-    is needed); created lazily, one single-thread executor, both torn down when the case ends."""
+    is needed); created lazily and torn down, with its executor, when the case ends."""
 
     def __init__(self) -> None:
         self.loop: asyncio.AbstractEventLoop | None = None
@@ -438,7 +459,7 @@ class _CaseLoop:
     def run(self, coro: Any) -> Any:
         if self.loop is None:
             self.loop = asyncio.new_event_loop()
-            self.executor = ThreadPoolExecutor(max_workers=1)
+            self.executor = ThreadPoolExecutor(max_workers=1) if REAL_THREADS else _InlineExecutor(max_workers=1)
             self.loop.set_default_executor(self.executor)
         return self.loop.run_until_complete(coro)
 
@@ -613,9 +634,8 @@ class C13(Prop):
         "x sync/async x {get_template, include (name as data), render, extends (name as literal)}. A case is "
         "non-trivial when the name contains '.', '..', empty or absolute components, or, joined to a configured "
         "root by plain path arithmetic, denotes an existing file outside every configured root; distinct by "
-        "SHA-1 of the case. thorough is exhaustive over the bounded grammar x the 20 enumerated configurations "
-        "x 2 modes x 4 access paths; quick pairs every grammar name with every loader kind and half of the "
-        "(search paths, extension) combinations"
+        "SHA-1 of the case. 'exhaustive' means: over the bounded grammar x the 20 enumerated configurations "
+        "x 2 modes x 4 access paths"
     )
     assumptions = [
         "POSIX path semantics (separator '/', no drive letters); the sandbox contains no symbolic links, so "
@@ -629,34 +649,26 @@ class C13(Prop):
         "tag access paths are only judged when the parsed tag really asks for the intended name "
         "(checked on the parsed node); otherwise the evaluation is skipped and counted",
         "the package is imported from a temporary directory prepended to sys.path inside the process",
+        "async mode runs on a fresh event loop per case whose default executor runs the loaders' "
+        "run_in_executor jobs inline on the loop thread (no worker threads inside the forked harness workers)",
     ]
     batch = 250
 
     def n_random(self, tier: str) -> int:
-        return 5000 if tier == "quick" else 120000
+        return 6000 if tier == "quick" else 120000
 
     def strategy(self, tier: str, disabled: frozenset[str]):
         return random_case()
 
     def enumerate(self, tier: str, disabled: frozenset[str]):
-        # control and hand-picked names: every configuration, both tiers
-        fixed = control_names() + extra_names()
-        seen = set(fixed)
-        for name in fixed:
-            for cfg in ENUM_CONFIGS:
-                yield self._case(name, cfg)
-        # grammar names: thorough = every configuration; quick = every loader kind, and for each kind two
-        # of the four (search paths, extension) combinations, complementary and alternating with the name
-        index = 0
+        # control and hand-picked names first, then the bounded grammar; every configuration each
+        names = control_names() + extra_names()
+        seen = set(names)
         for name in grammar_names(3 if tier == "quick" else 4):
-            if name in seen:
-                continue
-            index += 1
-            for ci, cfg in enumerate(ENUM_CONFIGS):
-                if tier == "quick":
-                    combo = ci % 4  # 0: one path/no ext, 1: one path/ext, 2: two paths/no ext, 3: two paths/ext
-                    if (combo in (0, 3)) != ((index + ci // 4) % 2 == 0):
-                        continue
+            if name not in seen:
+                names.append(name)
+        for name in names:
+            for cfg in ENUM_CONFIGS:
                 yield self._case(name, cfg)
 
     @staticmethod
@@ -668,9 +680,7 @@ class C13(Prop):
         return case
 
     def enumerated_is_exhaustive(self, tier: str) -> bool:
-        # quick pairs every grammar name with every loader kind but only half of the
-        # (search paths, extension) combinations
-        return tier == "thorough"
+        return True  # over the bounded grammar x the 20 enumerated configurations x modes x access paths
 
     def budget_s(self, tier: str) -> float:
         return 240 if tier == "quick" else 3000
